@@ -154,6 +154,56 @@ pub async fn raw_connect_window(addr: SocketAddr, ca: &Path, cert: Option<(&Path
     Ok(conn)
 }
 
+/// a raw peer that never gives up on its connection by itself (no idle timeout of its own, no keep-alive): whether a
+/// silent connection is ever declared dead is then up to the other side
+pub async fn raw_connect_patient(addr: SocketAddr, ca: &Path, cert: (&Path, &Path)) -> Result<quinn::Connection> {
+    let mut roots = rustls::RootCertStore::empty();
+    roots.add(&rustls::Certificate(std::fs::read(ca)?))?;
+    let mut crypto = rustls::ClientConfig::builder().with_safe_defaults().with_root_certificates(roots)
+        .with_client_auth_cert(vec![rustls::Certificate(std::fs::read(cert.0)?)], rustls::PrivateKey(std::fs::read(cert.1)?))?;
+    crypto.alpn_protocols = vec![b"hq-29".to_vec()];
+    let mut endpoint = quinn::Endpoint::client("127.0.0.1:0".parse().unwrap())?;
+    let mut cc = quinn::ClientConfig::new(Arc::new(crypto));
+    let mut tc = quinn::TransportConfig::default();
+    tc.max_idle_timeout(None);
+    tc.keep_alive_interval(None);
+    cc.transport_config(Arc::new(tc));
+    endpoint.set_default_client_config(cc);
+    let conn = endpoint.connect(addr, "localhost")?.await.context("raw connect")?;
+    Ok(conn)
+}
+
+/// a UDP relay in front of `server`: datagrams from the (one) client are forwarded to the server and back, until the
+/// returned task is aborted - from then on the client is gone without a word
+pub async fn udp_relay(server: SocketAddr) -> Result<(SocketAddr, tokio::task::JoinHandle<()>)> {
+    let sock = tokio::net::UdpSocket::bind("127.0.0.1:0").await?;
+    let addr = sock.local_addr()?;
+    let h = tokio::spawn(async move {
+        let mut client: Option<SocketAddr> = None;
+        let mut buf = vec![0u8; 65536];
+        loop {
+            let Ok((n, from)) = sock.recv_from(&mut buf).await else { return };
+            if from == server { if let Some(c) = client { let _ = sock.send_to(&buf[..n], c).await; } }
+            else { client = Some(from); let _ = sock.send_to(&buf[..n], server).await; }
+        }
+    });
+    Ok((addr, h))
+}
+
+/// a server whose `--max-idle-timeout` (milliseconds, as documented) is given
+pub fn start_server_idle(c: &Certs, idle_ms: u32) -> Result<SocketAddr> {
+    let (ca, cert, key) = (c.server("ca.der"), c.server("localhost.der"), c.server("localhost.key.der"));
+    let ms = idle_ms.to_string();
+    let args = UserArgs::parse_from([
+        "selium-server", "--bind-addr", "127.0.0.1:0", "--max-idle-timeout", ms.as_str(),
+        "--cert", cert.to_str().unwrap(), "--key", key.to_str().unwrap(), "--ca", ca.to_str().unwrap(),
+    ]);
+    let server = Server::try_from(args)?;
+    let addr = server.addr()?;
+    tokio::spawn(async move { let _ = server.listen().await; });
+    Ok(addr)
+}
+
 pub async fn raw_stream(conn: &quinn::Connection) -> Result<BiStream> {
     Ok(BiStream::try_from_connection(conn).await?)
 }
